@@ -909,3 +909,55 @@ def rule_if_errclass(cx, rep, port='js'):
         rep.holds('error classification', fd, 'errors are classified by the name of their class ({} class name(s) are defined in more than one module)'.format(len(dup)))
     else:
         rep.undecided('error classification', fd, 'how errors are classified was not recognised')
+
+
+def rule_if_finishpath(cx, rep, port):
+    """query(): the writer chain is finished on the success path only.  Finishing it from a `finally` (or an error handler) runs the
+    writers' finish() on a half-built state after a failed query; whatever that raises replaces the query's own error, so the error
+    class the caller sees (parsing / execution / IO) changes"""
+    p = cx.port(port)
+    mod = cx.engine_mod(port)
+    fd = p.func(mod, 'query')
+    fins = [c for c in ast.walk(fd) if isinstance(c, ast.Call) and isinstance(c.func, ast.Attribute) and c.func.attr == 'finish' and (dotted(c.func.value) or '').endswith('writer')]
+    if not fins:
+        rep.undecided('writer finish', fd, 'no call of the writer chain\'s finish() found in query()')
+        return
+    bad = None
+    for c in fins:
+        q = getattr(c, 'parent', None)
+        prev = c
+        while q is not None and q is not fd:
+            if isinstance(q, ast.Try) and (any(prev is x for x in q.finalbody) or any(prev is h for h in q.handlers)):
+                bad = (c, 'finally' if any(prev is x for x in q.finalbody) else 'except')
+            prev, q = q, getattr(q, 'parent', None)
+    if bad:
+        rep.violated('writer finish', bad[0], 'query() calls the writer chain\'s finish() from a `{}` block: after a failed query the writers are finished on incomplete state, and an error raised there replaces the error of the query (its class - parsing / execution / IO - is lost)'.format(bad[1]))
+    else:
+        rep.holds('writer finish', fins[0], 'finish() is called on the success path only')
+
+
+def rule_cl_delim(cx, rep, port='py'):
+    """the command line hands the delimiter to the library as typed, except for the two spellings of TAB: any other text - a non-ASCII
+    character, a backslash - is the delimiter itself.  `unicode_escape` decoding re-reads the characters as latin-1 bytes and eats
+    backslashes, so the CLI would split on something else than query_csv() with the same argument."""
+    from .. import pathsem
+    p = cx.py
+    fd = p.func('rbql_csv', 'normalize_delim', required=False)
+    if fd is None or not fd.args.args:
+        raise Undecided('anchor vanished: rbql_csv.normalize_delim(delim)', (p.files['rbql_csv'], 0))
+    prm = fd.args.args[0].arg
+    ps = pathsem.paths(fd)
+    if ps is None:
+        rep.undecided('delimiter normalisation', fd, 'normalize_delim is not summarisable as paths')
+        return
+    rets = [q for q in ps if q.kind == 'return' and q.value is not None]
+    ident = [q for q in rets if is_name(q.value, prm)]
+    tabs = [q for q in rets if isinstance(q.value, ast.Constant) and q.value.value == '\t']
+    other = [q for q in rets if q not in ident and q not in tabs]
+    lossy = [q for q in other if any(isinstance(x, ast.Constant) and x.value in ('unicode_escape', 'unicode-escape', 'string_escape', 'raw_unicode_escape') for x in ast.walk(q.value))]
+    if lossy:
+        rep.violated('delimiter normalisation', lossy[0].node, 'delimiters other than the TAB spellings are passed through `{}`: a non-ASCII delimiter is re-read as latin-1 bytes and a backslash is swallowed, so the command line splits on a different text than the library called with the same delimiter'.format(node_text(lossy[0].value, 60)))
+    elif other or not ident:
+        rep.undecided('delimiter normalisation', (other[0].node if other else fd), 'a delimiter is rewritten in a way that was not recognised')
+    else:
+        rep.holds('delimiter normalisation', fd, 'TAB / \\\\t become a tab character ({} path(s)), every other delimiter is passed on unchanged'.format(len(tabs)))
